@@ -1397,6 +1397,8 @@ def b_hash(ip, args, kwargs):
     # fresh unconstrained integer for every call site evaluation.  (Equal
     # objects hash equal: modelled by an uninterpreted function for Sym.)
     v = args[0]
+    if isinstance(v, Struct) and "_hash" in v.f:
+        return v.f["_hash"]
     if isinstance(v, Sym):
         f = z3.Function("py_hash_" + str(v.t.sort()), v.t.sort(), z3.IntSort())
         return wrap(f(v.t))
